@@ -88,6 +88,15 @@ Fixpoint nodup_bytes (l : list bytes) : bool :=
   | x :: t => negb (existsb (bytes_eqb x) t) && nodup_bytes t
   end.
 
+(* the strings a data slice supplies (a constant is resolved even when its count is 0) *)
+Definition newdata_strings (d : newdata) : list (option bytes) :=
+  match d with
+  | DStrPtrs x => x
+  | DStrings x => map Some x
+  | DConstStr v _ => [v]
+  | _ => []
+  end.
+
 (* New: whenever a frame is returned it holds exactly the supplied values in the requested order *)
 Definition new_oracle (data : list (bytes * newdata)) (order : list bytes) (enums : list (bytes * list bytes)) (out : frame) : N :=
   if ferr out then 0
@@ -99,6 +108,15 @@ Definition new_oracle (data : list (bytes * newdata)) (order : list bytes) (enum
     else if existsb (fun kv => match assocb (fst kv) data with
                                | Some d => is_string_data d && negb (nodup_bytes (snd kv))
                                | None => false
+                               end) enums then 2
+    (* with declared values, construction fails on any undeclared value (C17) *)
+    else if existsb (fun kv => match assocb (fst kv) data, snd kv with
+                               | Some d, _ :: _ =>
+                                   negb (forallb (fun c => match c with
+                                                           | Some b => existsb (bytes_eqb b) (snd kv)
+                                                           | None => true
+                                                           end) (newdata_strings d))
+                               | _, _ => false
                                end) enums then 2
     else
     match abs out with
